@@ -466,3 +466,59 @@ def decontainer(trees):
                    len(x.args) == 1 and is_self(x.args[0], sn):
                     x.args[0] = put(x.args[0], lensrc, sn)
     return n_rw[0]
+
+
+# ---------------------------------------------------------------------------------------------------------------
+# assignment expressions in the test of an if statement: `if (x := E) is None:`  is  `x = E` followed by `if x is None:`
+
+def dewalrus(trees):
+    """hoist an assignment expression that is evaluated first in the test of an `if` into a statement of its own in
+    front of the `if` (same evaluation order, same bindings); other positions are left alone.  Returns the count."""
+    n_rw = [0]
+
+    def leftmost(test):
+        """(holder, field, index) of the NamedExpr that is evaluated before anything else in test, or None"""
+        holder, fld, idx, cur = None, None, None, test
+        while True:
+            if isinstance(cur, ast.NamedExpr):
+                return holder, fld, idx, cur
+            if isinstance(cur, ast.Compare):
+                holder, fld, idx, cur = cur, 'left', None, cur.left
+            elif isinstance(cur, ast.BoolOp):
+                holder, fld, idx, cur = cur, 'values', 0, cur.values[0]
+            elif isinstance(cur, ast.UnaryOp) and isinstance(cur.op, ast.Not):
+                holder, fld, idx, cur = cur, 'operand', None, cur.operand
+            else:
+                return None
+
+    def block(stmts):
+        out = []
+        for st in stmts:
+            for f_ in ('body', 'orelse', 'finalbody'):
+                if isinstance(getattr(st, f_, None), list) and not isinstance(st, ast.ClassDef) or \
+                   (isinstance(st, ast.ClassDef) and f_ == 'body'):
+                    setattr(st, f_, block(getattr(st, f_)))
+            if isinstance(st, ast.Try):
+                for h in st.handlers:
+                    h.body = block(h.body)
+            if isinstance(st, ast.If):
+                hit = leftmost(st.test)
+                if hit is not None and isinstance(hit[3].target, ast.Name):
+                    holder, fld, idx, ne = hit
+                    asg = ast.Assign(targets=[ast.Name(id=ne.target.id, ctx=ast.Store())], value=ne.value)
+                    ast.copy_location(asg, st)
+                    ast.copy_location(asg.targets[0], ne)
+                    name = ast.copy_location(ast.Name(id=ne.target.id, ctx=ast.Load()), ne)
+                    if holder is None:
+                        st.test = name
+                    elif idx is None:
+                        setattr(holder, fld, name)
+                    else:
+                        getattr(holder, fld)[idx] = name
+                    out.append(asg)
+                    n_rw[0] += 1
+            out.append(st)
+        return out
+    for tree in trees:
+        tree.body = block(tree.body)
+    return n_rw[0]
